@@ -172,6 +172,7 @@ class ItemBlock:
     def __init__(self, file, path, tpl_line):
         self.file, self.path, self.tpl_line = file, path, tpl_line
         self.directives = []  # (kind, arg, tpl_line)
+        self.is_slice = False
 
 
 def parse_template(tpl_text, tpl_dir='.'):
@@ -193,17 +194,21 @@ def parse_template(tpl_text, tpl_dir='.'):
                 continue
             word, _, arg = body.partition(' ')
             arg = arg.strip()
+            if word == 'mode':
+                parts.append(('mode', arg))
+                continue
             if word == 'include':
                 if cur is not None:
                     raise GenError('template line %d: //@include inside block' % ln)
                 for k, l in enumerate(open(os.path.join(tpl_dir, arg)).read().split('\n'), 1):
                     parts.append(('text', '%s:%d' % (arg, k), l))
                 last_dir = None
-            elif word == 'item':
+            elif word in ('item', 'slice'):
                 if cur is not None:
                     raise GenError('template line %d: //@item inside open block' % ln)
                 segs = [x.strip() for x in arg.split(' :: ')]
                 cur = ItemBlock(segs[0], segs[1:], ln)
+                cur.is_slice = (word == 'slice')
                 parts.append(('item', cur))
                 last_dir = None
             elif word == 'end':
@@ -313,7 +318,7 @@ def tag_lines(txt, tag, indent='    '):
     return ''.join('%s%s //vx:%s\n' % (indent, l, tag) for l in txt.split('\n'))
 
 
-def extract_item(block, unit, fired_total, clauses, meta_items):
+def extract_item(block, unit, fired_total, clauses, meta_items, mode='verus'):
     path = os.path.join(REPO, block.file)
     try:
         src = open(path).read()
@@ -324,6 +329,48 @@ def extract_item(block, unit, fired_total, clauses, meta_items):
         raise GenError('anchor lost: %s :: %s' % (block.file, ' :: '.join(block.path)))
     orig = src[it.start:it.end]
     start_line = src.count('\n', 0, it.start) + 1
+    slice_desc = None
+    if block.is_slice:
+        if it.open_i is None:
+            raise GenError('slice of fn without body')
+        def dget(word):
+            v = [a for (w, a, _) in block.directives if w == word]
+            return v[0] if v else None
+        def find_stmt(spec, lo_tok):
+            mm = re.match(r'^(\d+)\s+"(.*)"$', spec.strip(), re.S)
+            if not mm:
+                raise GenError('bad //@from///@to: %r' % spec)
+            nth, ptoks = int(mm.group(1)), [t.text for t in code_tokens(mm.group(2))]
+            cnt = 0
+            for k in range(lo_tok, it.close_i - len(ptoks) + 1):
+                if toks[k].text == ptoks[0] and [t.text for t in toks[k:k + len(ptoks)]] == ptoks:
+                    cnt += 1
+                    if cnt == nth:
+                        return k
+            raise GenError('anchor lost: slice pattern %s in %s' % (spec, ' :: '.join(block.path)))
+        a = find_stmt(dget('from'), it.open_i + 1)
+        b = find_stmt(dget('to'), a) if dget('to') else a
+        # end of statement starting at b: `;` at depth 0, or a closing `}` of a block statement at depth 0
+        k, depth, end = b, 0, None
+        while k < it.close_i:
+            t = toks[k]
+            if t.kind == 'punct':
+                if t.text in '([{':
+                    depth += 1
+                elif t.text in ')]}':
+                    depth -= 1
+                    if depth == 0 and t.text == '}' and toks[k + 1].text not in (';', '.', '?', 'else') :
+                        end = k
+                        break
+                elif t.text == ';' and depth == 0:
+                    end = k
+                    break
+            k += 1
+        if end is None:
+            raise GenError('slice end not found')
+        orig = src[toks[a].start:toks[end].end]
+        start_line = src.count('\n', 0, toks[a].start) + 1
+        slice_desc = {'from': dget('from'), 'to': dget('to'), 'enclosing': ' :: '.join(block.path)}
     fired = {}
     text = strip_comments(orig)
     # member selection first (so rules do not choke on dropped members)
@@ -347,7 +394,8 @@ def extract_item(block, unit, fired_total, clauses, meta_items):
             if not any(header_matches(sub, s) for sub in iter_items(tk, top.open_i + 1, top.close_i)):
                 raise GenError('anchor lost: member %r of %s' % (s, ' :: '.join(block.path)))
         text = apply_edits(text, edits)
-    text = auto_rules(text, fired)
+    if mode == 'verus':
+        text = auto_rules(text, fired)
     rw_log = []
     for (w, a, ln) in block.directives:
         if w == 'rw':
@@ -368,6 +416,10 @@ def extract_item(block, unit, fired_total, clauses, meta_items):
                     rule, pat, cnt[0], ' :: '.join(block.path), m.group(4) or '>=1'))
             fired[rule] = fired.get(rule, 0) + cnt[0]
             rw_log.append({'rule': rule, 'pattern': pat, 'replacement': rep, 'hits': cnt[0]})
+    if block.is_slice:
+        head = '\n'.join(a for (w, a, _) in block.directives if w == 'head')
+        tail = '\n'.join(a for (w, a, _) in block.directives if w == 'tail')
+        text = tag_lines(head, 'wrap', '') + text + '\n' + tag_lines(tail, 'wrap', '')
     # R0 return naming (in place, before injection)
     cur_segs = []
     rets = []
@@ -417,7 +469,7 @@ def extract_item(block, unit, fired_total, clauses, meta_items):
         a0, a1 = tk[arrow + 2].start, tk[e - 1].end
         text = text[:a0] + '(%s: %s)' % (name, text[a0:a1]) + text[a1:]
         fired['R0'] = fired.get('R0', 0) + 1
-    expected_tokens = [t.text for t in code_tokens(text)]
+    expected_tokens = [t.text for t in code_tokens('\n'.join(l for l in text.split('\n') if '//vx:' not in l))]
 
     # injections
     ins = {}  # offset -> list of text
@@ -462,7 +514,7 @@ def extract_item(block, unit, fired_total, clauses, meta_items):
             proofs.append((list(cur_segs), where.strip(), txt.strip(), ln))
         elif w == 'member':
             members.append((list(cur_segs), a, ln))
-        elif w in ('ret', 'rw', 'only', 'drop', 'name', 'semi'):
+        elif w in ('ret', 'rw', 'only', 'drop', 'name', 'semi', 'from', 'to', 'head', 'tail'):
             pass
         else:
             raise GenError('template line %d: unknown directive %r' % (ln, w))
@@ -578,13 +630,18 @@ def extract_item(block, unit, fired_total, clauses, meta_items):
         'file': block.file, 'path': ' :: '.join(block.path), 'file_sha256': sha256(src),
         'item_sha256': sha256(orig), 'lines': [start_line, start_line + orig.count('\n')],
         'rules_fired': fired, 'rewrites': rw_log, 'dropped_members': dropped_names, 'erasure_check': 'ok',
+        'slice': slice_desc,
     })
     # line origins: source line for each generated line
     origins = []
     src_tok_lines = []
-    ttext = text
-    for t in code_tokens(ttext):
-        src_tok_lines.append(start_line + ttext.count('\n', 0, t.start))
+    nk = 0
+    for l in text.split('\n'):
+        if '//vx:' in l:
+            continue
+        for _t in code_tokens(l):
+            src_tok_lines.append(start_line + nk)
+        nk += 1
     ti = 0
     for l in gen.split('\n'):
         if '//vx:' in l:
@@ -603,12 +660,15 @@ def generate(tpl_path, unit):
     tpl = open(tpl_path).read()
     parts = parse_template(tpl, os.path.dirname(os.path.abspath(tpl_path)))
     out_lines, origins, clauses, items, fired = [], [], [], [], {}
+    mode = 'verus'
     for p in parts:
-        if p[0] == 'text':
+        if p[0] == 'mode':
+            mode = p[1]
+        elif p[0] == 'text':
             out_lines.append(p[2])
             origins.append(('tpl', p[1]))
         else:
-            gen, org = extract_item(p[1], unit, fired, clauses, items)
+            gen, org = extract_item(p[1], unit, fired, clauses, items, mode)
             gl = gen.split('\n')
             out_lines.extend(gl)
             origins.extend(org)
